@@ -1,10 +1,13 @@
 package main
 
 import (
+	"encoding/json"
 	"fmt"
 	"go/constant"
 	"go/token"
 	"go/types"
+	"os"
+	"path/filepath"
 	"sort"
 	"strings"
 
@@ -304,9 +307,9 @@ func (p *pather) path(v ssa.Value, depth int) string {
 func (p *pather) path1(v ssa.Value, d int) string {
 	switch x := v.(type) {
 	case *ssa.Parameter:
-		return x.Name()
+		return pname(x)
 	case *ssa.FreeVar:
-		return x.Name()
+		return fvname(x)
 	case *ssa.Const:
 		return constStr(x)
 	case *ssa.Global:
@@ -317,6 +320,14 @@ func (p *pather) path1(v ssa.Value, d int) string {
 		return x.Name()
 	case *ssa.Alloc:
 		if x.Comment != "" && x.Comment != "complit" && !strings.HasPrefix(x.Comment, "new") && x.Comment != "slicelit" && x.Comment != "makeslice" && x.Comment != "varargs" {
+			// the spilled copy of a parameter carries the parameter's (canonical) name
+			if f := x.Parent(); f != nil {
+				for _, prm := range f.Params {
+					if prm.Name() == x.Comment {
+						return pname(prm)
+					}
+				}
+			}
 			return x.Comment
 		}
 		return fmt.Sprintf("new(%s)", typeShort(x.Type().Underlying().(*types.Pointer).Elem()))
@@ -858,3 +869,64 @@ func stripConv(v ssa.Value) ssa.Value {
 }
 
 func sortStrings(s []string) { sort.Strings(s) }
+
+// P is the name of the i-th SSA parameter of f (index 0 is the receiver of a method): rules spell access paths
+// with it so that renaming a parameter does not change their verdict.
+func P(f *ssa.Function, i int) string {
+	if f != nil && i < len(f.Params) {
+		return pname(f.Params[i])
+	}
+	return "?"
+}
+
+// ---------------------------------------------------------------------------
+// Canonical parameter names. The rule tables spell access paths with the parameter names of the tree they were
+// written against; /verif/anchors/param_names.json freezes those names per function and position. A parameter
+// (or captured variable) is rendered by its frozen name, so that renaming it - a behaviour-preserving edit -
+// does not change any verdict. Functions that are not in the table, or whose arity changed, use their own names.
+
+type fnNames struct {
+	Params   []string `json:"params"`
+	FreeVars []string `json:"freevars,omitempty"`
+}
+
+var canonTable map[string]fnNames
+
+func loadCanonNames(vdir string) {
+	canonTable = map[string]fnNames{}
+	b, err := os.ReadFile(filepath.Join(vdir, "anchors", "param_names.json"))
+	if err != nil {
+		return
+	}
+	_ = json.Unmarshal(b, &canonTable)
+}
+
+func pname(p *ssa.Parameter) string {
+	f := p.Parent()
+	if f == nil {
+		return p.Name()
+	}
+	if t, ok := canonTable[f.String()]; ok && len(t.Params) == len(f.Params) {
+		for i, q := range f.Params {
+			if q == p {
+				return t.Params[i]
+			}
+		}
+	}
+	return p.Name()
+}
+
+func fvname(v *ssa.FreeVar) string {
+	f := v.Parent()
+	if f == nil {
+		return v.Name()
+	}
+	if t, ok := canonTable[f.String()]; ok && len(t.FreeVars) == len(f.FreeVars) {
+		for i, q := range f.FreeVars {
+			if q == v {
+				return t.FreeVars[i]
+			}
+		}
+	}
+	return v.Name()
+}
